@@ -47,7 +47,7 @@ class OpenFile:
 
 class StatResult:
     def __init__(self, ino):
-        self.st_mode = _stat.S_IFREG | ino.mode
+        self.st_mode = (_stat.S_IFDIR if ino.ino == 1 else _stat.S_IFREG) | ino.mode
         self.st_size = len(ino.data)
         self.st_ino = ino.ino
         self.st_nlink = ino.nlink
@@ -73,6 +73,9 @@ class SimFS:
         self.initial_dir = {}
         self.initial_modes = {}
         self.full = False           # persistent disk-full state
+        self.DIR_INO = 1
+        self.inodes[1] = Inode(1, b'', 0o755)
+        self.dirs = {cwd, posixpath.dirname(cwd), '/'}
 
     # -- set-up (pre-state is fully durable) ------------------------------------------
     def preload(self, path, data, mode):
@@ -152,6 +155,13 @@ class SimFS:
     # -- data operations ----------------------------------------------------------------
     def open(self, path, flags, mode=0o777):
         path = self.abspath(path)
+        if path in self.dirs:
+            if flags & (_os.O_WRONLY | _os.O_RDWR):
+                raise IsADirectoryError(_errno.EISDIR, 'Is a directory', path)
+            fd = self.next_fd
+            self.next_fd += 1
+            self.fds[fd] = OpenFile(self.DIR_INO, flags)
+            return fd
         i = self.dir.get(path)
         if i is not None:
             if flags & _os.O_CREAT and flags & _os.O_EXCL:
@@ -227,6 +237,9 @@ class SimFS:
 
     def fsync(self, fd):
         of = self._of(fd)
+        if of.ino == self.DIR_INO:
+            self.durable_meta = len(self.journal)     # directory fsync: entries are durable
+            return
         ino = self.inodes[of.ino]
         ino.synced = bytes(ino.data)
         ino.pending = []
@@ -277,6 +290,7 @@ class Snapshot:
         self.journal = list(fs.journal)
         self.durable_meta = fs.durable_meta
         self.inodes = {i: (bytes(n.data), n.synced, list(n.pending)) for i, n in fs.inodes.items()}
+        self.dirs = set(fs.dirs)
         self.cwd = fs.cwd
 
     # (P) process death: the kernel's view survives
@@ -354,6 +368,8 @@ class Sim:
         self.writes_after_publish = 0
         self.binding_changes = {}   # path -> number of seam calls that changed its binding
         self.watch = set()
+        self.persistent = {}        # kind -> fault applied to EVERY such call (environment personality)
+        self.armed = True           # False while the harness replays un-judged warm-up work
         self.kind_count = {}        # kind -> occurrences so far
         self.occ = []               # (kind, occurrence) per event
 
@@ -363,6 +379,8 @@ class Sim:
             return None
         if self.crashed is not None:
             raise CrashNow()
+        if not self.armed:
+            return None
         k = self.n
         self.n += 1
         self.trace.append((kind, detail))
@@ -379,7 +397,7 @@ class Sim:
         h = self.hooks.get(k) or self.hooks.get((kind, occ))
         if h is not None:
             h()
-        f = self.plan.faults.get(k) or self.plan.faults.get((kind, occ))
+        f = self.plan.faults.get(k) or self.plan.faults.get((kind, occ)) or self.persistent.get(kind)
         if f is not None:
             self.fired.append((k, kind, f))
             if self.log is not None:
@@ -556,7 +574,7 @@ class SimPath:
         return self.lexists(p)
 
     def isdir(self, p):
-        return self._sim.fs.abspath(p) == self._sim.fs.cwd
+        return self._sim.fs.abspath(p) in self._sim.fs.dirs
 
     def __getattr__(self, name):
         return getattr(posixpath, name)
@@ -589,6 +607,8 @@ class SimOS:
         if f is not None:
             _raise(f, path)
         i = sim.fs.lookup(path)
+        if i is None and sim.fs.abspath(path) in sim.fs.dirs:
+            i = sim.fs.DIR_INO
         if i is None:
             raise FileNotFoundError(_errno.ENOENT, 'No such file or directory', path)
         return StatResult(sim.fs.inodes[i])
